@@ -96,3 +96,10 @@ Fixpoint decode (hdr : nat) (t : dtype) (bs : bytes) {struct t} : result (value 
       if is_blob inner then decode hdr inner bs
       else decode hdr inner (snd (read_upto hdr bs))
   end.
+
+(* a sequence of values one after the other (method arguments, the values of a creation packet) *)
+Fixpoint decode_seq (hdr : nat) (ts : list dtype) (bs : bytes) : result (list value * bytes) :=
+  match ts with
+  | [] => Ok ([], bs)
+  | t :: r => '(v, rest) <- decode hdr t bs ;; '(vs, rest') <- decode_seq hdr r rest ;; Ok (v :: vs, rest')
+  end.
